@@ -571,3 +571,38 @@ pub fn from_tx(t: &Transaction) -> RTx {
         outs: t.output.iter().map(from_txout).collect(),
     }
 }
+
+pub fn from_params(p: &elements::dynafed::Params) -> RParams {
+    use elements::dynafed::Params;
+    match p {
+        Params::Null => RParams::Null,
+        Params::Compact { signblockscript, signblock_witness_limit, elided_root } => RParams::Compact {
+            signblockscript: signblockscript.to_bytes(),
+            limit: *signblock_witness_limit,
+            elided_root: elided_root.to_byte_array(),
+        },
+        Params::Full(f) => RParams::Full(RFull {
+            signblockscript: f.signblockscript.to_bytes(),
+            limit: f.signblock_witness_limit,
+            fedpeg_program: f.fedpeg_program.to_bytes(),
+            fedpegscript: f.fedpegscript.clone(),
+            ext: f.extension_space.clone(),
+        }),
+    }
+}
+
+pub fn from_header(h: &BlockHeader) -> RHeader {
+    RHeader {
+        version: h.version,
+        prev: h.prev_blockhash.to_byte_array(),
+        merkle_root: h.merkle_root.to_byte_array(),
+        time: h.time,
+        height: h.height,
+        ext: match &h.ext {
+            BlockExtData::Proof { challenge, solution } => RExt::Proof { challenge: challenge.to_bytes(), solution: solution.to_bytes() },
+            BlockExtData::Dynafed { current, proposed, signblock_witness } => {
+                RExt::Dynafed { current: from_params(current), proposed: from_params(proposed), witness: signblock_witness.clone() }
+            }
+        },
+    }
+}
